@@ -223,14 +223,17 @@ PROPS["C01"] = {
              "the statement (blacklist -> rewrite -> drop-raw consumption by complete filter -> routes in order on the rewritten name -> "
              "all-match / first-match over destinations), compared in both directions with the exact line sequence each capture route "
              "received, the per-destination counter deltas after a Flush barrier, and the blacklist / unroutable / in / invalid counter deltas. "
+             "concurrent_senders: the same tables and oracle with 8-80 lines per case handed in by 2-8 goroutines at once, each from its own reused "
+             "buffer (several input connections); capture routes compared as multisets. In both sub-checks every slice a capture route was handed "
+             "must still read the same at the end of the case. "
              "Non-trivial: >=2 routes of which one matches and one does not, or a first-match route with >=2 matching destinations, or a "
              "blacklist/drop-raw hit on a line a route would have matched. Distinct = hash(table, lines)."),
     "level_text": "Reference-model property testing of the real Table with real routes and destinations; thousands of generated tables x lines; holds on all generated.",
     "level_note": "kafkaMdm / pubsub / cloudWatch routes cannot be constructed offline (constructors need their services) and are outside the generated tables; grafanaNet is covered by C17. Consistent-hashing destination choice itself is C15's subject (here: exactly one destination).",
     "technique": "property-based testing (rapid): reference dispatcher model vs capture routes and per-destination counters",
     "assumptions": ["Go regexp is the RE2 reference", "names valid at the default validation level (printable ASCII, no tags)"],
-    "quick": [R("TestPropDispatch", 2500)],
-    "thorough": [R("TestPropDispatch", 20000, shards=16, timeout=2400)],
+    "quick": [R("TestPropDispatch", 2500), R("TestPropConcurrentSenders", 700)],
+    "thorough": [R("TestPropDispatch", 20000, shards=12, timeout=2400), R("TestPropConcurrentSenders", 8000, shards=4, timeout=2400)],
 }
 
 PROPS["C04"] = {
